@@ -80,7 +80,7 @@ def check_series(res, specs, times, truth, jump, rng, exprs, label):
             for v, r in used.items():
                 ev = expected(v, t)
                 exp_b[r], exp_b[r + 1] = ev[0] / div * vn, ev[1] / div * vn
-            if div != 0 and np.max(np.abs(b - exp_b)) > 1e-9 * (1 + np.max(np.abs(exp_b))):
+            if nrows and div != 0 and np.max(np.abs(b - exp_b)) > 1e-9 * (1 + np.max(np.abs(exp_b))):
                 k = int(np.argmax(np.abs(b - exp_b)))
                 bad.append(f"frame {t} adimensional={adim}: right-hand side entry {k} is {b[k]} expected {exp_b[k]}")
         b0, avg0 = fm.set_velocity_matrix(ts)
